@@ -1805,6 +1805,17 @@ def replay(ctx, path):
         case = DIRECTED[c["directed"][0]](c.get("id", 1), **c["directed"][1])
     elif c.get("regen"):
         case = make_case(c["regen"]["seed"], c.get("id", 1), **c["regen"]["kw"])
+    elif c.get("history"):
+        ops = c["history"]
+        rr = run_unit({"kind": "history", "runs": [ops]})[0]
+        sops = [[Sym("deliver"), codes(o[1])] if o[0] == "deliver" else Sym(o[0]) for o in ops]
+        m_reads, m_full = ctx.driver.call("c06.hist", False, sops)
+        full = "".join(chr(x) for x in m_full)
+        print("history:", ops)
+        print("reads (ended, value):", rr, "| text of all lines:", repr(full))
+        bad = [[e, codes(v)] for e, v in rr] != m_reads or any(e and v != full for e, v in rr)
+        print(f"VIOLATION property={ID} replay={path}" if bad else "property holds on this history")
+        return common.EXIT_VIOLATION if bad else common.EXIT_OK
     else:
         print("this replay is not a pipeline program; re-run ./check C06 with the same seed")
         return common.EXIT_INFRA
